@@ -47,6 +47,27 @@ CLAIMED = {
         "rule is a listed known finding; products of reals are uninterpreted (rm) with commutativity only.",
    technique="contract-stubbed proxy execution; ghost (phase, log-magnitude) of det with homomorphism lemmas; z3/cvc5",
    engine="ALG"),
+ "C02": dict(
+   category="proof",
+   text="Rule level: every rule of transpose/adjoint (live table) meets M(r) = M(A)^T / M(A)^H with swapped shape and kept dtype, for "
+        "real and complex dtypes and declared SelfAdjoint/PSD/Unitary operands. Method level: every _rmatmat override, the base-class "
+        "default (SelfAdjoint shortcut and linear_transpose path) and __rmatmul__ for 1-D and 2-D operands return X M(self); the real "
+        "method objects run over abstract parts. Involution and towers follow from the contracts (no depth bound).",
+   design_ref="4.2",
+   note="linear_transpose is a dependency contract (absent on the NumPy backend); Sliced._rmatmat is outside the ALG domain (C20's index engine); "
+        "the complex-SelfAdjoint transpose shortcut is a listed known finding; exact arithmetic.",
+   technique="contract-stubbed proxy execution of rule bodies and kernel methods; z3/cvc5 over the abstract linear-algebra theory",
+   engine="ALG"),
+ "C11": dict(
+   category="proof",
+   text="Every rule of cholesky and plu must return factors with L lower triangular, L L^H = M(A) (resp. P permutation, L lower, U upper, "
+        "P L U = M(A)) and keep the structure of the input (Kronecker -> Kronecker of factor-wise results, BlockDiag with the same multiplicities, "
+        "no Dense/Triangular of the full size for Diagonal/ScalarMul/Identity); real rule bodies over abstract factors.",
+   design_ref="4.11",
+   note="np.linalg.cholesky and scipy.linalg.lu(p_indices=True) are dependency contracts; cholesky of a Kronecker product assumes positive "
+        "definite factors; sqrt(A)sqrt(A)=A and PSD-ness of the principal root are ASSUMED lemmas; exact arithmetic.",
+   technique="contract-stubbed proxy execution; structure predicates (tril/triu/isperm) closed under kron/blockdiag as lemmas; z3/cvc5",
+   engine="ALG"),
 }
 
 NOT_YET = "check not built yet in this session (framework under construction; see DESIGN.md section 10 for the order of work)"
